@@ -65,7 +65,7 @@ def float_time(which):
 
 def plan(tier):
     q = tier == "quick"
-    T = 240 if q else 900
+    T = 420 if q else 900
     conds = [
         Cond(H, "time_ints", "main", T, "exp/nbf/iat with unbounded int now, leeway, values; presence flags"),
         Cond(H, "time_ints_witness", "witness", 60), Cond(H, "time_reject_witness", "witness", 60),
